@@ -10,17 +10,17 @@ open Yorkie Yorkie.Crdt
 
 /-! ### the alphabet -/
 
-/-- an `Increase` of a live counter that is a member of a live object (a counter inside an array is
-    outside this alphabet) -/
-def GoodInc (H : Home) (d : Doc) (c : Ticket) (delta : Int) : Prop :=
-  ∃ l v q fq, absNode d c = some (.cnt l v) ∧ wrap l delta = delta ∧ wrap l v = v ∧
-    H.par c = some q ∧ absNode d q = some (.obj fq)
+/-- an `Increase` of a live counter with in-range operand and value; the counter may be an object
+    member or an array element (the repaired `ReconcileCreatedAt` rewrites the counter identity of a
+    stacked `Increase` when the element is restored under a new identity) -/
+def GoodInc (d : Doc) (c : Ticket) (delta : Int) : Prop :=
+  ∃ l v, absNode d c = some (.cnt l v) ∧ wrap l delta = delta ∧ wrap l v = v
 
 def GoodOp3 (H : Home) (tw : Ticket → Bool) (d : Doc) : UOp → Prop
   | .add p prev val _ => ∃ l, GoodAdd H tw d p prev val l
   | .remove p u _ => (∃ l, GoodDel tw d p u l) ∨ (∃ f, GoodRemove H tw d p u f)
   | .set p k val _ => ∃ f, GoodSet H tw d p k val f
-  | .increase c delta _ => GoodInc H d c delta
+  | .increase c delta _ => GoodInc d c delta
   | _ => False
 
 def aexec3 (H : Home) (A : AHeap) : UOp → AHeap
@@ -161,7 +161,7 @@ theorem remove_explicit {H : Home} {tw : Ticket → Bool} {d : Doc} {L : Int} {s
       StepRes H tw d (.remove p u ts0) ts.lamport d' (removeRev H d p u ts) ∧ PlainArrs d' L := by
   obtain ⟨d', rev, he, res⟩ := step_remove (ts0 := ts0) w bd hL ⟨f, g⟩ hsrc
   obtain ⟨pe, keys, member, hd, hr, hb, hf⟩ := absNode_obj g.hp
-  have he' := uexecute_remove (ts := ts) w bd hL g hsrc hd hb hf
+  have he' := uexecute_remove (ts := ts) w bd hL g hsrc hd hr hb hf
   rw [he'] at he
   injection he with he
   injection he with h1 h2
@@ -306,17 +306,13 @@ theorem inv3_good {H : Home} {tw : Ticket → Bool} {Y X : Doc} {N : Int} {r : U
         | none => exact hi
         | some ce => exact bdY.ent _ _ hc
   | increase c delta ts =>
-    obtain ⟨l, v, q, fq, hc, hwd, hwv, hpar, hq⟩ := g
+    obtain ⟨l, v, hc, hwd, hwv⟩ := g
     obtain ⟨d'', _, res, _⟩ := inc_explicit (tw := tw) (ts0 := ts) (ts := ⟨N + 1, 0, 0⟩) (src := .undoRedo) wY bdY plY hN1
       hc hwd hwv rfl
     obtain ⟨g1, b1⟩ := inv3_good_old (r := .increase c delta ts) wX hs hX res
     have hinv : inv3 H Y (.increase c delta ts) = .increase c (wrap l (-delta)) ts := by simp only [inv3, hc]
     rw [hinv]
-    obtain ⟨l', v', h1, h2, h3⟩ := g1
-    have hqc : q ≠ c := by intro h; rw [h, hc] at hq; cases hq
-    have hXq : absNode X q = some (.obj fq) := by
-      rw [hX]; simp only [aexec3, ainc, hqc, if_false]; exact hq
-    exact ⟨⟨l', v', q, fq, h1, h2, h3, hpar, hXq⟩, b1.symm, hi⟩
+    exact ⟨g1, b1.symm, hi⟩
   | move => exact g.elim
   | arraySet => exact g.elim
 
